@@ -128,7 +128,13 @@ class CoreExec(object):
                     return istr[0]
                 else:
                     return None
-        i = self.cpu.disassemble(istr[0], **kargs)
+        # the bytes of an instruction may be spread over several adjacent memory objects:
+        data = istr[0]
+        for x in istr[1:]:
+            if not isinstance(x, bytes):
+                break
+            data += x
+        i = self.cpu.disassemble(data, **kargs)
         if i is None:
             logger.warning("disassemble failed at vaddr %s" % addr)
             return None
